@@ -1,5 +1,6 @@
 """Out-of-tree builds of /repo's working tree (hooks on), cached under .cache/."""
 import fcntl
+import hashlib
 import os
 import subprocess
 import sys
@@ -26,9 +27,10 @@ def binary(kind='plain'):
     if kind in _done:
         return _done[kind]
     spec = KINDS[kind]
-    bdir = os.path.join(CACHE, 'build-' + kind)
+    tag = kind if REPO == '/repo' else '%s-%s' % (kind, hashlib.sha256(REPO.encode()).hexdigest()[:8])
+    bdir = os.path.join(CACHE, 'build-' + tag)
     os.makedirs(bdir, exist_ok=True)
-    lock = open(os.path.join(CACHE, 'lock-' + kind), 'w')
+    lock = open(os.path.join(CACHE, 'lock-' + tag), 'w')
     fcntl.flock(lock, fcntl.LOCK_EX)
     try:
         if not os.path.exists(os.path.join(bdir, 'build.ninja')):
